@@ -1,10 +1,10 @@
 --------------------------- MODULE MC_RuntimeDoc ---------------------------
 EXTENDS RuntimeDoc
-Classes == {"plain", "quotes", "backslash", "backquote", "percent", "atname", "unicode", "namefirst", "tagplus", "tagat"}
+Classes == {"plain", "quotes", "backslash", "backquote", "percent", "atname", "unicode", "namefirst", "namedouble", "tagplus", "tagat"}
 MCDocPatterns == {<<>>} \cup {<<a>> : a \in Classes} \cup {<<a, b>> : a \in Classes, b \in Classes}
                  \cup {<<"plain", "blank", "unicode">>, <<"namefirst", "blank", "quotes">>, <<"plain", "blank", "tagplus">>, <<"tagat", "plain", "blank", "backslash">>}
 MCDocPatternsSmall == {<<>>} \cup {<<a>> : a \in Classes} \cup {<<"plain", "blank", "unicode">>, <<"tagplus", "namefirst">>, <<"quotes", "tagat", "percent">>}
 MCFieldDocPatterns == {<<>>, <<"plain">>, <<"quotes", "backquote">>, <<"tagplus", "percent">>, <<"plain", "blank", "atname">>, <<"backslash">>, <<"unicode", "tagat">>}
 MCKinds == {"struct", "genericStruct", "scalar", "map", "slice", "func", "interface", "unexportedScalar"}
-MCFieldPatterns == {"one", "withUnexported", "anonStruct", "emptyNamed", "embedValue", "embedPointer", "noExported", "namedCovered", "two"}
+MCFieldPatterns == {"one", "withUnexported", "anonStruct", "emptyNamed", "embedValue", "embedPointer", "embedDocumented", "noExported", "namedCovered", "two"}
 =============================================================================
